@@ -47,8 +47,47 @@ pub struct CoseRecipient {
 
 impl crate::CborSerializable for CoseRecipient {}
 
-impl AsCborValue for CoseRecipient {
-    fn from_cbor_value(value: Value) -> Result<Self> {
+«use crate::header::{prot_ok, prot_res, hdr_ok, hdr_res, hdr_cv, hdr_encodable};
+// COSE_recipient = [ Headers, ciphertext: bstr / nil, ? recipients: [+COSE_recipient] ]  (recursive)
+pub open spec fn recipient_ok(v: Value) -> bool
+    decreases v, 1nat
+{
+    v matches Value::Array(a) && (a@.len() == 3 || a@.len() == 4) && prot_ok(a@[0], 0) && hdr_ok(a@[1], 0) && is_bytes_or_null(a@[2])
+    && (a@.len() == 4 ==> recipients_ok(a@[3]))
+}
+pub open spec fn recipients_ok(v: Value) -> bool
+    decreases v, 0nat
+{ v matches Value::Array(a) && forall |j: int| 0 <= j < a@.len() ==> recipient_ok(#[trigger] a@[j]) }
+pub open spec fn recipient_res(v: Value, x: CoseRecipient) -> bool
+    decreases v, 1nat
+{
+    v matches Value::Array(a) && a@.len() >= 3 && prot_res(a@[0], 0, x.protected) && hdr_res(a@[1], 0, x.unprotected) && payload_res(a@[2], x.ciphertext)
+    && (if a@.len() == 4 { recipients_res(a@[3], x.recipients@) } else { x.recipients@.len() == 0 })
+}
+pub open spec fn recipients_res(v: Value, s: Seq<CoseRecipient>) -> bool
+    decreases v, 0nat
+{ v matches Value::Array(a) && a@.len() == s.len() && forall |j: int| 0 <= j < a@.len() ==> recipient_res(#[trigger] a@[j], s[j]) }
+pub open spec fn recipient_cv(x: CoseRecipient) -> CV
+    decreases x, 1nat
+{
+    if x.recipients@.len() == 0 { CV::Array(seq![CV::Bytes(prot_slot(x.protected)), hdr_cv(x.unprotected), opt_bytes_cv(x.ciphertext)]) }
+    else { CV::Array(seq![CV::Bytes(prot_slot(x.protected)), hdr_cv(x.unprotected), opt_bytes_cv(x.ciphertext), recipients_cv(x.recipients@)]) }
+}
+pub open spec fn recipients_cv(s: Seq<CoseRecipient>) -> CV
+    decreases s, 0nat
+{ CV::Array(Seq::new(s.len(), |j: int| if 0 <= j < s.len() { recipient_cv(s[j]) } else { CV::Null })) }
+pub open spec fn recipient_encodable(x: CoseRecipient) -> bool
+    decreases x, 1nat
+{ prot_encodable(x.protected) && hdr_encodable(x.unprotected) && recipients_encodable(x.recipients@) }
+pub open spec fn recipients_encodable(s: Seq<CoseRecipient>) -> bool
+    decreases s, 0nat
+{ forall |j: int| 0 <= j < s.len() ==> recipient_encodable(#[trigger] s[j]) }
+»
+impl AsCborValue for CoseRecipient {«
+    open spec fn dec_rel(value: Value, r: Result<Self>) -> bool { (r is Ok <==> recipient_ok(value)) && (r matches Ok(x) ==> recipient_res(value, x)) }
+    open spec fn enc_rel(self, r: Result<Value>) -> bool { (r is Ok <==> recipient_encodable(self)) && (r matches Ok(v) ==> vv(v) == recipient_cv(self)) }»
+    fn from_cbor_value(value: Value) -> Result<Self> {«
+        broadcast use crate::vprelude::axiom_question_mark_uses_from;»
         let mut a = value.try_as_array()?;
         if a.len() != 3 && a.len() != 4 {
             return Err(CoseError::UnexpectedItem(
@@ -77,7 +116,8 @@ impl AsCborValue for CoseRecipient {
         })
     }
 
-    fn to_cbor_value(self) -> Result<Value> {
+    fn to_cbor_value(self) -> Result<Value> {«
+        broadcast use crate::vprelude::axiom_question_mark_uses_from;»
         let mut v = vec![
             self.protected.cbor_bstr()?,
             self.unprotected.to_cbor_value()?,
@@ -88,7 +128,8 @@ impl AsCborValue for CoseRecipient {
         ];
         if !self.recipients.is_empty() {
             v.push(crate::vstubs::recipients_to_cbor_array__stub(self.recipients)?);
-        }
+        }«
+        proof { lemma_vv_array(v); assert(vv_seq(v@) =~= recipient_cv(self)->Array_0); }»
         Ok(Value::Array(v))
     }
 }
@@ -271,8 +312,34 @@ impl crate::TaggedCborSerializable for CoseEncrypt {
     #[verifier::external_body] const TAG: u64 = iana::CborTag::CoseEncrypt as u64;
 }
 
-impl AsCborValue for CoseEncrypt {
-    fn from_cbor_value(value: Value) -> Result<Self> {
+«pub open spec fn encrypt_ok(v: Value) -> bool {
+    v is Array && arr_of(v).len() == 4 && prot_ok(arr_of(v)[0], 0) && hdr_ok(arr_of(v)[1], 0) && is_bytes_or_null(arr_of(v)[2]) && recipients_ok(arr_of(v)[3])
+}
+pub open spec fn encrypt_res(v: Value, x: CoseEncrypt) -> bool {
+    prot_res(arr_of(v)[0], 0, x.protected) && hdr_res(arr_of(v)[1], 0, x.unprotected) && payload_res(arr_of(v)[2], x.ciphertext) && recipients_res(arr_of(v)[3], x.recipients@)
+}
+pub open spec fn encrypt_cv(x: CoseEncrypt) -> CV {
+    CV::Array(seq![CV::Bytes(prot_slot(x.protected)), hdr_cv(x.unprotected), opt_bytes_cv(x.ciphertext), recipients_cv(x.recipients@)])
+}
+pub open spec fn encrypt_encodable(x: CoseEncrypt) -> bool { prot_encodable(x.protected) && hdr_encodable(x.unprotected) && recipients_encodable(x.recipients@) }
+pub proof fn lemma_recipients_array(s: Vec<CoseRecipient>, v: Value)
+    requires v is Array, crate::util::iter_enc_ok::<Vec<CoseRecipient>>(s, arr_of(v)),
+    ensures recipients_encodable(s@), vv(v) == recipients_cv(s@),
+{
+    broadcast use crate::util::axiom_iter_enc_ok_vec;
+    lemma_vv_value_array(v);
+    assert(vv_seq(arr_of(v)) =~= recipients_cv(s@)->Array_0);
+}
+pub proof fn lemma_recipients_array_err(s: Vec<CoseRecipient>, e: CoseError)
+    requires crate::util::iter_enc_err::<Vec<CoseRecipient>>(s, e),
+    ensures !recipients_encodable(s@),
+{ broadcast use crate::util::axiom_iter_enc_err_vec; }
+»
+impl AsCborValue for CoseEncrypt {«
+    open spec fn dec_rel(value: Value, r: Result<Self>) -> bool { (r is Ok <==> encrypt_ok(value)) && (r matches Ok(x) ==> encrypt_res(value, x)) }
+    open spec fn enc_rel(self, r: Result<Value>) -> bool { (r is Ok <==> encrypt_encodable(self)) && (r matches Ok(v) ==> vv(v) == encrypt_cv(self)) }»
+    fn from_cbor_value(value: Value) -> Result<Self> {«
+        broadcast use crate::vprelude::axiom_question_mark_uses_from;»
         let mut a = value.try_as_array()?;
         if a.len() != 4 {
             return Err(CoseError::UnexpectedItem("array", "array with 4 items"));
@@ -294,8 +361,10 @@ impl AsCborValue for CoseEncrypt {
         })
     }
 
-    fn to_cbor_value(self) -> Result<Value> {
-        Ok(Value::Array(vec![
+    fn to_cbor_value(self) -> Result<Value> {«
+        broadcast use crate::vprelude::axiom_question_mark_uses_from;
+        broadcast use crate::util::axiom_iter_enc_err_vec;»
+        «let r = »Ok(Value::Array(vec![
             self.protected.cbor_bstr()?,
             self.unprotected.to_cbor_value()?,
             match self.ciphertext {
@@ -303,7 +372,9 @@ impl AsCborValue for CoseEncrypt {
                 Some(b) => Value::Bytes(b),
             },
             to_cbor_array(self.recipients)?,
-        ]))
+        ]))«;
+        proof { let v = r->Ok_0; lemma_vv_value_array(v); lemma_recipients_array(self.recipients, arr_of(v)[3]); assert(vv_seq(arr_of(v)) =~= encrypt_cv(self)->Array_0); }
+        r»
     }
 }
 
@@ -449,8 +520,20 @@ impl crate::TaggedCborSerializable for CoseEncrypt0 {
     #[verifier::external_body] const TAG: u64 = iana::CborTag::CoseEncrypt0 as u64;
 }
 
-impl AsCborValue for CoseEncrypt0 {
-    fn from_cbor_value(value: Value) -> Result<Self> {
+«pub open spec fn encrypt0_ok(v: Value) -> bool {
+    v is Array && arr_of(v).len() == 3 && prot_ok(arr_of(v)[0], 0) && hdr_ok(arr_of(v)[1], 0) && is_bytes_or_null(arr_of(v)[2])
+}
+pub open spec fn encrypt0_res(v: Value, x: CoseEncrypt0) -> bool {
+    prot_res(arr_of(v)[0], 0, x.protected) && hdr_res(arr_of(v)[1], 0, x.unprotected) && payload_res(arr_of(v)[2], x.ciphertext)
+}
+pub open spec fn encrypt0_cv(x: CoseEncrypt0) -> CV { CV::Array(seq![CV::Bytes(prot_slot(x.protected)), hdr_cv(x.unprotected), opt_bytes_cv(x.ciphertext)]) }
+pub open spec fn encrypt0_encodable(x: CoseEncrypt0) -> bool { prot_encodable(x.protected) && hdr_encodable(x.unprotected) }
+»
+impl AsCborValue for CoseEncrypt0 {«
+    open spec fn dec_rel(value: Value, r: Result<Self>) -> bool { (r is Ok <==> encrypt0_ok(value)) && (r matches Ok(x) ==> encrypt0_res(value, x)) }
+    open spec fn enc_rel(self, r: Result<Value>) -> bool { (r is Ok <==> encrypt0_encodable(self)) && (r matches Ok(v) ==> vv(v) == encrypt0_cv(self)) }»
+    fn from_cbor_value(value: Value) -> Result<Self> {«
+        broadcast use crate::vprelude::axiom_question_mark_uses_from;»
         let mut a = value.try_as_array()?;
         if a.len() != 3 {
             return Err(CoseError::UnexpectedItem("array", "array with 3 items"));
@@ -469,15 +552,18 @@ impl AsCborValue for CoseEncrypt0 {
         })
     }
 
-    fn to_cbor_value(self) -> Result<Value> {
-        Ok(Value::Array(vec![
+    fn to_cbor_value(self) -> Result<Value> {«
+        broadcast use crate::vprelude::axiom_question_mark_uses_from;»
+        «let r = »Ok(Value::Array(vec![
             self.protected.cbor_bstr()?,
             self.unprotected.to_cbor_value()?,
             match self.ciphertext {
                 None => Value::Null,
                 Some(b) => Value::Bytes(b),
             },
-        ]))
+        ]))«;
+        proof { let v = r->Ok_0; lemma_vv_value_array(v); assert(vv_seq(arr_of(v)) =~= encrypt0_cv(self)->Array_0); }
+        r»
     }
 }
 
